@@ -589,3 +589,18 @@ pub(crate) struct Pake3<'a> {
     /// The cA confirmation (32 bytes HMAC)
     pub ca: OctetStr<'a>,
 }
+
+#[cfg(feature = "verif")]
+impl Pase {
+    /// Verification hook: a plain-data copy of the commissioning window / PASE state.
+    pub fn verif_snap(&self) -> crate::verif::PaseSnap {
+        let window = self.comm_window.as_opt_ref();
+
+        crate::verif::PaseSnap {
+            window_open: window.is_some(),
+            window_expiry: window.map(|w| w.window_expiry.as_ticks()),
+            pake_failures: window.map(|w| w.pake_failures).unwrap_or(0),
+            establishing: self.session_timeout.is_some(),
+        }
+    }
+}
